@@ -1,6 +1,14 @@
 """Per-property metadata used by the runner (levels, explanations)."""
 
 PROPS = {
+    "C03": {
+        "level": "other",
+        "explanation": "write-order protocol of the process-kill model decided on all paths: must-happened-before "
+                       "with Ok-sensitivity and kills for the put/remove order and snapshot-before-prune, in-place "
+                       "writes of durable names excluded by effect class, one write call per log record, and the "
+                       "destructive effects reachable from open enumerated",
+        "not_decided": "that each crash image decodes to the acknowledged history; nested crashes beyond R5",
+    },
     "C08": {
         "level": "other",
         "explanation": "clean-up half decided on all paths (protocol lock + re-validation guards dominate every "
